@@ -45,6 +45,7 @@ func main() {
 	quiet()
 	r.Register("h", func(a []string) string { return runCase(a, false) })
 	r.Register("hl", func(a []string) string { return runCase(a, true) })
+	r.Register("hw", func(a []string) string { return runCallerWrites(a) })
 	r.Register("k6", func(a []string) string { return runHuntCase(a) })
 	r.Register("ka", func(a []string) string { return runHunt4Case(a) })
 	if r.Replayed() {
@@ -75,8 +76,8 @@ func runCase(a []string, lazy bool) string {
 				done <- "panic"
 			}
 		}()
-		pa, fa := runHistory(ops, true, byte(fill), byte(stp), lazy)
-		_, fb := runHistory(ops, false, 0, 0, lazy)
+		pa, fa := runHistory(ops, true, byte(fill), byte(stp), lazy, "")
+		_, fb := runHistory(ops, false, 0, 0, lazy, "")
 		eq := "T"
 		if fa != fb {
 			eq = "F"
@@ -142,4 +143,51 @@ func parseOps(toks []string) ([]op, bool) {
 		}
 	}
 	return ops, true
+}
+
+// runCallerWrites: the history is executed with private buffers, once untouched and once per output class with
+// the application overwriting every byte slice of that class it gets back; the retained state and all later
+// outputs must not change. Observation: "T <projected transcript>" or "F:<classes whose run differs> ...".
+func runCallerWrites(a []string) string {
+	if len(a) < 2 {
+		return "badargs"
+	}
+	ops, ok := parseOps(a[2:])
+	if !ok {
+		return "badargs"
+	}
+	done := make(chan string, 1)
+	go func() {
+		defer func() {
+			if e := recover(); e != nil {
+				done <- "panic"
+			}
+		}()
+		pj, base := runHistory(ops, false, 0, 0, false, "")
+		var bad []string
+		for _, c := range cwClasses {
+			f := "panic" // a corrupted table can trip the library's own consistency panic
+			func() {
+				defer func() { recover() }()
+				_, f = runHistory(ops, false, 0, 0, false, c)
+			}()
+			if f != base {
+				bad = append(bad, c)
+				if os.Getenv("C10_DEBUG") != "" {
+					fmt.Fprintf(os.Stderr, "CW %s\nA: %s\nB: %s\n", c, base, f)
+				}
+			}
+		}
+		if len(bad) == 0 {
+			done <- "T " + pj
+		} else {
+			done <- "F:" + strings.Join(bad, ",") + " " + pj
+		}
+	}()
+	select {
+	case r := <-done:
+		return r
+	case <-time.After(60 * time.Second):
+		return "fuel"
+	}
 }
